@@ -428,6 +428,14 @@ def gen_C02(o, rng, tier):
                 t.append(f"{reg} drain {take} {e}")
                 for kind in ("pairs", "keys", "values"):
                     t.append(f"{reg} into_iter {kind} {take} {e}")
+        # std's provided methods on the owning iterators: nth(k), nth(usize::MAX), last(), count()
+        for take in [f"t{k}" for k in range(0, len(lay) + 1)] + ["tM", "z", "1"]:
+            for e in ("drop", "forget", "count"):
+                if (take == "z" and e != "drop") or (take == "1" and e != "count"):
+                    continue
+                t.append(f"{reg} drain {take} {e}")
+                for kind in ("pairs", "keys", "values"):
+                    t.append(f"{reg} into_iter {kind} {take} {e}")
         for c in u:
             t += [f"{reg} insert {{k{c}}} {{v}}", f"{reg} checked_insert {{k{c}}} {{v}}",
                   f"{reg} insert_key_value {{k{c}}} {{v}}", f"{reg} remove q:{c}#0",
@@ -451,8 +459,10 @@ def gen_C02(o, rng, tier):
     for nn in range(0, n + 1):
         u = list(range(nn + 1))
         for lay in layouts(nn, u):
-            for take in range(0, len(lay) + 2):
-                for e in ("drop", "forget"):
+            for take in list(range(0, len(lay) + 2)) + ["t0", "t1", "tM", "z"]:
+                for e in ("drop", "forget", "count"):
+                    if (take == "z" and e != "drop") or (e == "count" and take not in (1, "t0")):
+                        continue
                     for kind in ("drain", "into_iter"):
                         o.case(s0=nn, s1=nn)
                         build_set(o, "s0", lay)
@@ -543,7 +553,14 @@ def gen_C04_phase1(o, rng, tier):
               f"{reg} clone m1", f"{reg} eq m1", f"m1 eq {reg}", f"{reg} clone_from m1", f"m1 clone_from {reg}",
               f"{reg} drain 1 drop", f"{reg} drain 0 drop", f"{reg} into_iter pairs 1 drop",
               f"{reg} into_iter keys 0 drop", f"{reg} into_iter keys 2 drop", f"{reg} into_iter values 2 drop",
-              f"{reg} into_iter values 1 forget", f"{reg} drain 1 forget", f"{reg} drain 3 drop"]
+              f"{reg} into_iter values 1 forget", f"{reg} drain 1 forget", f"{reg} drain 3 drop",
+              # std's provided methods on the owning iterators (Model/StdIter.lean): the skipped items
+              # are destroyed between the calls of `next`, while the iterator still owns the rest
+              f"{reg} into_iter pairs t1 drop", f"{reg} into_iter pairs t2 drop", f"{reg} into_iter pairs t0 count",
+              f"{reg} into_iter pairs 1 count", f"{reg} into_iter keys t1 drop", f"{reg} into_iter values t1 drop",
+              f"{reg} into_iter keys 0 count", f"{reg} into_iter values 1 count", f"{reg} into_iter pairs tM drop",
+              f"{reg} drain t1 drop", f"{reg} drain t2 drop", f"{reg} drain 0 count", f"{reg} drain t0 count",
+              f"{reg} drain tM drop"]
         for k in range(0, 4):
             for seq in itertools.islice(itertools.product(u[:3], repeat=k), 0, 12):
                 xs = ",".join(f"{{k{c}}}={{v}}" for c in seq)
@@ -572,7 +589,9 @@ def gen_C04_phase1(o, rng, tier):
                 for op in (["s0 clone s1", "s0 clone_from s1", "s1 clone_from s0", "s0 extend_from s1", "s1 extend_from s0",
                             "s0 sub s1 s1", "s0 sub s1 s0", "s0 eq s1", "s0 is_subset s1",
                             "s0 is_disjoint s1", "s0 alg union s1 nnnn", "s0 alg symmetric_difference s1 df",
-                            "s0 alg intersection s1 cnn", "s0 retain 5", "s0 clear", "s0 drain 1 drop"] +
+                            "s0 alg intersection s1 cnn", "s0 retain 5", "s0 clear", "s0 drain 1 drop",
+                            "s0 drain t1 drop", "s0 drain 0 count", "s0 into_iter t1 drop", "s0 into_iter 1 count",
+                            "s0 into_iter tM drop"] +
                            [f"s0 extend 1 [{{k{a}}},{{k{b}}}]" for a in u[:2] for b in u[:2]] +
                            [f"s0 from_iter 1 [{{k{a}}},{{k{b}}}]" for a in u[:2] for b in u[:2]] +
                            ([f"s0 from_iter 0 [{{k{a}}},{{k{b}}}]" for a in u[:2] for b in u[:2]] if nn == 2 else []) +
@@ -696,7 +715,9 @@ def gen_C06(o, rng, tier):
         t = map_ops_basic(reg, u, full_args=False)
         for c in u:
             t += [f"{reg} entry {{k{c}}} [1] oi:{{v}}", f"{reg} entry {{k{c}}} [] o.get",
-                  f"{reg} entry {{k{c}}} [] o.into_mut", f"{reg} entry {{k{c}}} [] od:{{v}}"]
+                  f"{reg} entry {{k{c}}} [] o.into_mut", f"{reg} entry {{k{c}}} [] od:{{v}}",
+                  f"{reg} entry {{k{c}}} [] key", f"{reg} entry {{k{c}}} [] o.key", f"{reg} entry {{k{c}}} [1] o.get_mut:2",
+                  f"{reg} entry {{k{c}}} [] oiw:{{v}}", f"{reg} entry {{k{c}}} [] oiwk:{{v}}", f"{reg} entry {{k{c}}} [] v.insert:{{v}}"]
         t += [f"{reg} iter {k} 1 nhldDcnx" for k in ("iter", "keys", "values", "iter_mut", "values_mut")]
         t += [f"{reg} clone m1", f"{reg} eq m1", f"{reg} fmt debug", f"{reg} fmt debug#", f"{reg} fmt display",
               f"{reg} fmt display>", f"{reg} fmt display#", f"{reg} fmt debug>",
@@ -864,17 +885,15 @@ def gen_C10(o, rng, tier):
         for lay in layouts(nn, u):
             for variant in ([False, True] if lay else [False]):
                 # `take`: k calls of next, `tK` = nth(K), `z` = last(); end: drop / forget / count()
-                takes = [str(t) for t in range(0, len(lay) + 3)] + [f"t{k}" for k in range(0, len(lay) + 2)] + ["z"]
+                takes = [str(t) for t in range(0, len(lay) + 3)] + [f"t{k}" for k in range(0, len(lay) + 2)] + ["z", "tM"]
                 for take in takes:
-                    plain = take.isdigit()
                     for e in ("drop", "forget", "count"):
                         if take == "z" and e != "drop":
                             continue
                         ops = [f"m0 drain {take} {e}", f"m0 into_iter pairs {take} {e}"]
-                        if plain and e != "count":
-                            # IntoKeys / IntoValues: `next` drops the other half (an effect), so the
-                            # provided methods are exercised on the pair iterator only
-                            ops += [f"m0 into_iter {k} {take} {e}" for k in ("keys", "values")]
+                        # IntoKeys / IntoValues: `next` drops the other half; std's provided methods
+                        # (Model/StdIter.lean) are built on that `next`
+                        ops += [f"m0 into_iter {k} {take} {e}" for k in ("keys", "values")]
                         for op in ops:
                             o.case(m0=nn, m1=nn)
                             build_map(o, "m0", lay, via_removal=variant)
